@@ -439,6 +439,51 @@ theorem refuse_too_large (env : Env B H) (t len : Nat) (h64 : len < 2^64) (hbig 
   obtain ⟨h1, h2, h3, _, h5⟩ := refuse_at_header env _ rest (encHeader_length _ _ _) _ _ hdec frags hfr
   exact ⟨h1, h2, h3, h5⟩
 
+/-! ## the handshake message and what arrives with it -/
+
+/-- **`read_message` takes exactly the handshake message off the socket**: for a frame of the expected
+(known) type whose length is within the limit it consumes the 11 header bytes and the `msg_len` body
+bytes and nothing else, whatever the body decoder says — every byte written behind the `Hand` / `Shake`
+in the same write is still there for the `Codec` that `Peer::accept` / `Peer::connect` start on the
+same stream (and is then read faithfully: `framing_faithful`) -/
+theorem handshake_consumes_exactly {α : Type} (net : NetCfg) (t : Nat) (dec : Dec α) (body rest : Bytes)
+    (hk : isKnownType t = true) (hl : body.length ≤ maxLen net t) (h64 : body.length < 2^64) :
+    (readMessage net t dec (encHeader net t body.length ++ (body ++ rest))).consumed = 11 + body.length ∧
+    ((readMessage net t dec (encHeader net t body.length ++ (body ++ rest))).res =
+      match dec body with
+      | .ok v _ _ => .ok v
+      | .err e _ => .error (.ser e)
+      | .panic _ _ => .error .conn) := by
+  have hs : splitExact MSG_HEADER_LEN (encHeader net t body.length ++ (body ++ rest)) =
+      some (encHeader net t body.length, body ++ rest) := by
+    have := splitExact_append (encHeader net t body.length) (body ++ rest)
+    rwa [encHeader_length] at this
+  have hdec : decHeader net (encHeader net t body.length) = .ok (.known t body.length) [] 0 := by
+    have := decHeader_encHeader net t body.length h64 []
+    rw [List.append_nil] at this
+    rw [this, if_neg (by omega), if_pos hk]
+  have hb : splitExact body.length (body ++ rest) = some (body, rest) := splitExact_append body rest
+  unfold readMessage
+  simp only [hs, hdec, if_true, hb]
+  cases dec body <;> exact ⟨rfl, rfl⟩
+
+/-- header items of DIFFERENT serialized sizes are within `framing_faithful`: a receiving node whose
+items are a length byte followed by that many bytes, and a `Headers` list with items of 3, 1 and 5 bytes -/
+example : ∀ m ∈ [Sent.headers [(2, [2, 7, 7]), (0, [0]), (4, [4, 1, 2, 3, 4])]],
+    SentWF (B := Bytes) (H := Nat)
+      { net := netAutomatedTesting, hdrMax := 310, hdrMem := 400, decBody := fun _ raw => .ok raw,
+        decItem := fun bs => match bs with
+          | n :: r => if n ≤ r.length then .ok (n, r.drop n) else .error .ioEof
+          | [] => .error .ioEof }
+      (fun _ => none) m := by
+  intro m hm
+  simp only [List.mem_cons, List.mem_nil_iff, or_false] at hm
+  subst hm
+  refine ⟨by decide, by decide, by decide, by decide, ?_⟩
+  intro it hit
+  simp only [List.mem_cons, List.mem_nil_iff, or_false] at hit
+  rcases hit with rfl | rfl | rfl <;> exact ⟨by decide, by decide, fun x => by simp⟩
+
 /-! ## refusals at connection level (`conn::poll`, `try_break!`) -/
 
 /-- the classes of `codec.read()` results and what the reader loop does with them: a message is
